@@ -11,16 +11,24 @@ frame sizes around the 128 KiB - 1 payload limit) and fed to the connection afte
 handshakes under every splitting of a stated family.
 Outgoing: requests of boundary sizes are encoded by the driver and read back by the independent
 reader.  Corruption: every single-bit flip of small multi-segment streams x every one-cut split.
+Send-side schedules (engine S): two application threads in the real send_msg on one connection, messages of
+one and of several segments, every schedule with a bounded number of preemptions (between source lines of
+send_msg, lock operations and push() calls); the node's independent reader must reassemble exactly the
+messages that were sent.
 """
+import functools
 import hashlib
 
 from vt.core import Part, HarnessError
 from vt import connlib
+from vt import sched
+from vt.vthreading import RT
 
 META = {
     'level': 'exploration',
-    'engine': 'E',
-    'technique': 'exhaustive enumeration of read splittings and single-bit faults of v5 segment streams on the real Connection',
+    'engine': 'E+S',
+    'technique': 'exhaustive enumeration of read splittings and single-bit faults of v5 segment streams on the real Connection; '
+                 'exhaustive enumeration of thread schedules (bounded preemptions) of concurrent send_msg calls',
     'text': 'A protocol-v5 connection (no compression / lz4 via the pure-Python lz4 block codec in /verif/stubs) is set up by each of '
             'the handshakes STARTUP->READY, STARTUP->AUTHENTICATE->AUTH_RESPONSE->AUTH_SUCCESS and the same with one AUTH_CHALLENGE '
             'round (PlainTextAuthenticator), the answers of the node fed one at a time under all splittings with <=2 cuts of one '
@@ -42,7 +50,15 @@ META = {
             'stream), and the '
             'connection must not fail.  The driver\'s own encoder is read back by the independent reader for request sizes '
             'around the segment limit.  Every single-bit flip of five small multi-segment streams (self-contained and not, coalesced, plain and both lz4 forms) x every 1-cut split must '
-            'leave the connection defunct with CrcMismatchException and deliver only unaltered frames of earlier segments.',
+            'leave the connection defunct with CrcMismatchException and deliver only unaltered frames of earlier segments.  '
+            'SEND-SIDE SCHEDULES (engine S): two application threads (thorough: also three) each call the real Connection.send_msg '
+            'once on the same v5 connection, with QUERY frames of 1000, MAX, MAX+1, 3*MAX/2, 2*MAX+5 bytes in 10 size pairs '
+            '(one-segment with one-segment, one- with multi-segment, multi- with multi-segment; plain, and 4 pairs with lz4); every '
+            'schedule with <= 1 (thorough 2) preemptions is run, scheduling points being every source line of send_msg, every '
+            'operation on the (virtual) connection lock and every push() call wherever it is made.  The node sees the pushes in the '
+            'order they were made (one push is a unit) and reads them with the independent segment reader and frame parser: every '
+            'message it reassembles must be one of those sent (stream id and query text equal, nothing trailing), each exactly '
+            'once, none lost, no bytes left over, no segment payload over MAX, the connection intact.',
     'note': 'Trusted: vt.world.wire segment writer/reader (CRC24/CRC32 per native_protocol_v5.spec) and the lz4 block codec stub '
             '(self-tested on hand-written vectors).  Small non-self-contained segments are legal on the wire but not produced by '
             'Cassandra for small frames; they stand in for the multi-segment path under complete split enumeration.',
@@ -246,7 +262,7 @@ def get_stream(kind, name, lz4, form=None, hs='ready'):
 
 
 # ------------------------------------------------------------------ one execution
-def open_connection(lz4, hs='ready', split=None):
+def open_connection(lz4, hs='ready', split=None, conn_cls=None):
     """A v5 VConnection taken through handshake `hs` one server answer at a time; split = {step: cuts} feeds
     the answer to request number `step` in pieces (default: one read per answer).
     -> (world, server, connection, problem); problem = None or (oracle clause, step, text).  The judgement is made
@@ -273,8 +289,8 @@ def open_connection(lz4, hs='ready', split=None):
     w = World(srv)
     w.__enter__()
     try:
-        conn = VConnection(srv.hosts[0].address, protocol_version=5, compression=bool(lz4),
-                           authenticator=PlainTextAuthenticator('u', 'p') if H['authenticator'] else None)
+        conn = (conn_cls or VConnection)(srv.hosts[0].address, protocol_version=5, compression=bool(lz4),
+                                         authenticator=PlainTextAuthenticator('u', 'p') if H['authenticator'] else None)
         st = conn.server_state
         problem = None
         tokens = []
@@ -361,10 +377,10 @@ def report_handshake(part, problem, lz4, hs, split=None):
                    'connection setup %s with %s framing, step %d: %s; case %r' % (hs, codec, problem[1], problem[2], case), case)
 
 
-def connect(lz4, hs, part):
+def connect(lz4, hs, part, conn_cls=None):
     """-> (world, server, connection) after a whole-answer handshake, or None when that already broke the
     property (reported under the handshake fingerprint)"""
-    w, srv, conn, problem = open_connection(lz4, hs)
+    w, srv, conn, problem = open_connection(lz4, hs, conn_cls=conn_cls)
     if problem:
         w.__exit__()
         report_handshake(part, problem, lz4, hs)
@@ -562,6 +578,165 @@ def send_and_read_back(lz4, size, compressible, part, hs='ready'):
         w.__exit__()
 
 
+# ------------------------------------------------------------------ send-side schedules (engine S)
+# Application threads call send_msg() on one connection at the same time.  What a reactor promises is that one push()
+# is written to the socket as a unit; the bytes of two push() calls may be written in either order.  So the node
+# sees the pushes in the order the schedule produced them, and must still reassemble exactly the messages sent.
+from vt.world.vworld import VConnection as _VConnection       # noqa: E402  (vworld is loaded by connlib above)
+
+
+class SendConn(_VConnection):
+    """VConnection whose push() is a scheduling point of its own (wherever it is called from) and remembers which
+    virtual thread pushed what."""
+    def push(self, data):
+        s = RT.sched
+        if s is not None:
+            s.point('push', len(data))
+            me = s.current
+            self.__dict__.setdefault('push_log', []).append((me.name if me is not None else '-', len(data)))
+        _VConnection.push(self, data)
+
+
+def _code(f):
+    return getattr(f, '__wrapped__', f).__code__
+
+
+@functools.lru_cache(maxsize=64)
+def query_text(size, who, compressible):
+    """query text that makes a QUERY frame of exactly `size` bytes (9 header + 4 + len + 2 consistency + 4 flags in
+    v5); different for every sender"""
+    qlen = size - 9 - 4 - 2 - 4
+    if compressible:
+        unit = 'SELECT * FROM t%d WHERE k=0 ' % who
+        return (unit * (qlen // len(unit) + 1))[:qlen]
+    return noise(qlen // 2 + 1, salt=b'sender%d' % who).hex()[:qlen]
+
+
+def send_params(lz4, sizes, compressible=False):
+    return {'codec': 'lz4' if lz4 else 'plain', 'sizes': list(sizes), 'compressible': bool(compressible)}
+
+
+@sched.gc_quiet
+def s_send(params, prefix, part):
+    """One schedule of len(sizes) application threads, each sending one QUERY of the given frame size with the real
+    send_msg on one v5 connection; every source line of Connection.send_msg, every virtual lock operation and every
+    push() is a scheduling point.  Judged on the wire by the node's independent segment reader and frame parser."""
+    from cassandra.protocol import QueryMessage
+    from cassandra.connection import Connection
+    lz4, sizes, compressible = params['codec'] == 'lz4', list(params['sizes']), params['compressible']
+    opened = connect(lz4, 'ready', part, conn_cls=SendConn)
+    if opened is None:
+        raise HarnessError('send-schedule layer: the whole-answer handshake failed (reported under C06/handshake)')
+    w, srv, conn = opened
+    codec = codec_label(lz4, 'ready')
+    try:
+        srv.hold = lambda c, r: True
+        st = conn.server_state
+        seglog = st['seglog']
+        nseg0, nrecv0 = len(seglog.segments), len(srv.received)
+        sent = {}
+        jobs = []
+        for i, size in enumerate(sizes):
+            with conn.lock:
+                rid = conn.get_request_id()
+            q = query_text(size, i, compressible)
+            sent[rid] = q
+            jobs.append((rid, q))
+        s = sched.Scheduler(prefix, focus=[_code(Connection.send_msg)], horizon=20000, clock=w.clock)
+        errs = []
+
+        def sender(rid, q):
+            def body():
+                try:
+                    conn.send_msg(QueryMessage(q, 1), rid, lambda r: None)
+                except Exception as e:        # ValueError: raised by the node's reader inside push()
+                    errs.append((rid, e))
+            return body
+        for i, (rid, q) in enumerate(jobs):
+            s.spawn(sender(rid, q), 'sender%d' % i)
+        s.run()
+        for t in s.threads:
+            if t.exc is not None:
+                raise HarnessError('send-schedule layer: %r raised %r in schedule %r of %r\n%s'
+                                   % (t, t.exc, s.choices(), params, getattr(t, 'exc_tb', '')))
+        case = dict(params, kind='send-schedule', prefix=s.choices())
+        pushes = list(conn.__dict__.get('push_log', ()))
+        segs = seglog.segments[nseg0:]
+        new = [(r[1], r[2]) for r in srv.received[nrecv0:] if r[0] == conn.vid]
+        bad = None
+        if s.failure:
+            bad = ('lost', 'the senders did not finish: %s %s' % s.failure)
+        for rid, e in errs:
+            if bad is None and isinstance(e, ValueError) and 'segment' not in str(e):
+                # every segment passed its checksums, and the frame put together from them cannot be parsed
+                bad = ('altered', 'the node reassembled, without any checksum error, a frame that was never sent: its frame parser '
+                       'failed (%s) inside the push() of stream %d' % (e, rid))
+            elif bad is None:
+                bad = ('unreadable' if isinstance(e, ValueError) else 'raised',
+                       'send_msg on stream %d ended with %s: %s' % (rid, type(e).__name__, e))
+        seen = []
+        for stream, req in new:
+            if bad:
+                break
+            q = req.get('query')
+            if req['op'] != 'QUERY' or stream not in sent or q != sent[stream] or req.get('trailing'):
+                same = [r for r, text in sent.items() if q == text]
+                if req['op'] == 'QUERY' and stream in sent and q is not None and len(q) == len(sent[stream]):
+                    diff = next((j for j in range(len(q)) if q[j] != sent[stream][j]), len(q))
+                    how = '%d-character query that differs from the one sent on that stream from offset %d on' % (len(q), diff)
+                else:
+                    how = '%s-character query equal to %s' % (len(q) if q is not None else 'no', 'the one sent on stream %d' % same[0] if same else 'none of those sent')
+                bad = ('altered', 'the node reassembled a message that was never sent, without any checksum error: %s on stream %r, %s, '
+                       '%d trailing bytes' % (req['op'], stream, how, len(req.get('trailing') or b'')))
+            elif stream in seen:
+                bad = ('twice', 'the message on stream %d reached the node twice' % stream)
+            seen.append(stream)
+        if bad is None and st.get('unreadable'):
+            bad = ('unreadable', 'the node cannot read what the driver sent: %s' % st['unreadable'][0])
+        if bad is None and sorted(seen) != sorted(sent):
+            bad = ('lost', 'messages sent on streams %r, the node has read complete messages on %r; %d bytes of an incomplete frame and '
+                   '%d bytes of an incomplete segment are left' % (sorted(sent), sorted(seen), len(st['buf']), len(seglog.buf)))
+        if bad is None and (st['buf'] or seglog.buf):
+            bad = ('altered', 'all messages read, but %d bytes of a further frame / %d of a further segment are left at the node'
+                   % (len(st['buf']), len(seglog.buf)))
+        if bad is None and (conn.is_defunct or conn.is_closed):
+            bad = ('clean', 'connection failed while sending: %r' % (conn.last_error,))
+        if bad is None and any(len(x[3]) > MAX for x in segs):
+            bad = ('oversize-segment', 'segment payload lengths %r' % [len(x[3]) for x in segs])
+        if bad is None and sum(len(x[3]) for x in segs) != sum(sizes):
+            raise HarnessError('send-schedule layer: %d payload bytes on the wire, frames of %r sent' % (sum(len(x[3]) for x in segs), sizes))
+        order = ''.join(chr(ord('A') + int(name[6:])) for name, _ in pushes)
+        if bad:
+            part.violation('C06/send-schedule/%s/%s/%s' % (bad[0], 'multi-segment-message' if max(sizes) > MAX else 'one-segment-messages', codec),
+                           '%s; pushes in wire order (sender, bytes): %r; case %r' % (bad[1], pushes, case), case)
+        switched = any(p.chosen for p in s.trace if p.kind != 'start')
+        part.count('evaluations')
+        part.count('send_schedules')
+        part.count('outgoing_messages', len(sizes))
+        if switched:
+            part.count('send_schedules_with_a_switch_inside_send_msg')
+            part.mark_nontrivial('send-schedule/%s/%r/%r/%r' % (codec, sizes, compressible, s.choices()))
+        part.outcome((params['codec'], 'send-schedule', order if len(order) <= 8 else order[:8] + '...'))
+        s.verdict = bad
+        return s
+    finally:
+        w.__exit__()
+
+
+def explore_send_schedules(params, bound, part):
+    """every schedule of s_send(params) with at most `bound` preemptions (iterative context bounding, vt.sched.children)"""
+    frontier = [[]]
+    n = 0
+    while frontier:
+        prefix = frontier.pop(0)
+        s = s_send(params, prefix, part)
+        n += 1
+        part.count('executions')
+        part.count('send_schedule_steps', s.steps)
+        frontier.extend(k for k, _ in sched.children(s.trace, len(prefix), bound))
+    return n
+
+
 # ------------------------------------------------------------------ work items
 def small_splittings(st, anywhere=2, nearb=3):
     L = len(st.data)
@@ -660,6 +835,11 @@ def run_item(item):
     elif kind == 'out':
         _, lz4, size, compressible, hs = item
         send_and_read_back(lz4, size, compressible, part, hs=hs)
+    elif kind == 'sched':
+        _, lz4, sizes, compressible, bound = item
+        n = explore_send_schedules(send_params(lz4, sizes, compressible), bound, part)
+        part.sample({'item': list(item), 'schedules': n}, limit=1)
+        return part
     if kind == 'out' or item[-2] == 0:
         part.sample({'item': list(item)}, limit=1)
     return part
@@ -752,9 +932,28 @@ def run(ctx):
             for size in (sizes if hs == 'ready' else sizes_auth):
                 for compressible in ((False, True) if lz4 else (False,)):
                     items.append((400, ('out', lz4, size, compressible, hs)))
+    # send-side schedules: application threads in send_msg on one connection at the same time
+    sched_bound = 1 if ctx.quick else 2
+    H = 3 * MAX // 2
+    sched_plain = [(1000, 1000), (1000, MAX), (MAX, MAX), (1000, MAX + 1), (MAX, MAX + 1), (MAX + 1, MAX + 1), (1000, 2 * MAX + 5),
+                   (MAX + 1, 2 * MAX + 5), (H, H), (2 * MAX + 5, 2 * MAX + 5)]
+    sched_lz4 = [(1000, MAX + 1), (MAX + 1, MAX + 1), (MAX + 1, 2 * MAX + 5), (H, H)]
+    sched_cfgs = [(False, sz, False, sched_bound) for sz in sched_plain] + [(True, sz, True, sched_bound) for sz in sched_lz4]
+    if ctx.thorough:
+        # three senders; a payload lz4 does not shrink much (slow in the pure-Python codec)
+        sched_cfgs += [(False, (1000, MAX + 1, MAX + 1), False, 1), (False, (MAX + 1, MAX + 1, 2 * MAX + 5), False, 1),
+                       (True, (1000, MAX + 1), False, 1)]
+    for lz4, sz, compressible, bound in sched_cfgs:
+        items.append((600 if bound == 1 else 6000, ('sched', lz4, sz, compressible, bound)))
     items = [it for _, it in sorted(ctx.rotate(items), key=lambda x: -x[0])]
     for part in ctx.pmap(run_item, items):
         ctx.merge(part)
+    ctx.cov['harnesses'] = {'c06-S-send': {
+        'configs (codec, frame sizes per sender, compressible text, preemption bound)': [
+            ['lz4' if l else 'plain', list(sz), c, b] for l, sz, c, b in sched_cfgs],
+        'executions': ctx.counters.get('send_schedules', 0),
+        'executions_with_a_switch_inside_send_msg': ctx.counters.get('send_schedules_with_a_switch_inside_send_msg', 0),
+        'scheduling_points_passed': ctx.counters.get('send_schedule_steps', 0), 'complete': True}}
     ctx.cov['rule'] = ('codecs {plain, lz4}; connection setups %s: every splitting with <= %d cuts of one answer of the node from the '
                        'STARTUP answer on U one byte per read; small streams %s (+ lz4 only: %s): after setup ready all splittings with '
                        '<=%d cuts anywhere U <=%d cuts within 1 byte of a segment start / header end / header-CRC end / payload end / '
@@ -762,13 +961,23 @@ def run(ctx):
                        'streams %s in plain form and %s in lz4-left-uncompressed / lz4-compressed form (after setup ready%s): all 1-cut '
                        'splittings within %d bytes and '
                        'all 2-cut splittings within %d byte(s) of those boundaries; outgoing frame sizes %s (after setups %s: %s); bit flips: every bit of '
-                       '%d multi-segment streams %s x every splitting with <= %d cuts; non-trivial = distinct (stream, codec and setup, number of cuts) '
-                       'classes, (setup, codec, answer, number of cuts) classes, flipped bits, outgoing segment forms'
+                       '%d multi-segment streams %s x every splitting with <= %d cuts; SEND-SIDE SCHEDULES (engine S, vt.sched): for each of '
+                       'the %d configurations (codec, frame sizes of the senders) %s every schedule with <= %d preemptions%s of that many '
+                       'threads calling the real send_msg once each on one connection (scheduling points: every source line of '
+                       'Connection.send_msg, every virtual lock operation, every push()), the pushes reaching the node in the order the '
+                       'schedule made them; non-trivial = distinct (stream, codec and setup, number of cuts) '
+                       'classes, (setup, codec, answer, number of cuts) classes, flipped bits, outgoing segment forms, send schedules with a '
+                       'thread switch while a send_msg was in progress'
                        % (list(HANDSHAKES), hs_kmax, list(SMALL), list(SMALL_LZ4_ONLY), anywhere, nearb,
                           '' if ctx.quick else ' U every composition of the one-empty-frame streams', auth_hs, auth_anywhere, auth_nearb,
                           bigs, bigs_lz4, '; %s also after %s' % (bigs_auth, auth_hs) if bigs_auth else '', r1, r2, sizes, auth_hs, sizes_auth,
-                          len(FLIP_STREAMS), [n for _, n in FLIP_STREAMS], kcuts))
+                          len(FLIP_STREAMS), [n for _, n in FLIP_STREAMS], kcuts, len(sched_cfgs),
+                          [('lz4' if l else 'plain',) + tuple(sz) for l, sz, c, b in sched_cfgs], sched_bound,
+                          '' if ctx.quick else ' (1 for the three-sender and the incompressible-lz4 configurations)'))
     ctx.cov['exhaustive'] = not ctx.caps_hit      # caps are hit only when reads stopped returning (C06/livelock)
+    ctx.assume('send-side schedules: a reactor writes the bytes of one push() call to the socket as a unit and in the order of the calls '
+               '(that is C11\'s property); what the node reads is the concatenation of the pushes in the order they were made; it puts a '
+               'frame together from the payloads of consecutive segments as they arrive (native_protocol_v5.spec section 2.2)')
     ctx.assume('stream ids after the handshake are handed out in the order first, first+1, ... (first = number of handshake requests; '
                'checked at every execution)')
     ctx.assume('a node leaves a segment payload uncompressed exactly when compressing does not make it smaller')
@@ -785,6 +994,10 @@ def replay(ctx, data):
     hs = data.get('handshake', 'ready')
     if data.get('kind') == 'handshake':
         bad = handshake_case(data['codec'] == 'lz4', hs, {int(k): tuple(v) for k, v in data.get('split', {}).items()}, part)
+    elif data.get('kind') == 'send-schedule':
+        sch = s_send({'codec': data['codec'], 'sizes': list(data['sizes']), 'compressible': data['compressible']},
+                     list(data['prefix']), part)
+        bad = sch.verdict
     elif data.get('kind') == 'out':
         bad = send_and_read_back(data['codec'] == 'lz4', data['frame_size'], data['compressible'], part, hs=hs)
     else:
